@@ -1,0 +1,145 @@
+//go:build verif
+
+// Contracts for the expression semantics checker (expr_sema.go, expr_type.go). Verified by govc.
+//
+// C12/C11: every sub-expression is visited: `semavisited` is the set of nodes handed to check (or
+// to checkWithNarrowing, which dispatches to check); every checker of a node kind visits all
+// children of its node, so by induction every node of an expression tree is visited, and
+// checkVariable / checkBuiltinFuncCall apply the availability tests to every variable and call.
+// C12: a context (special function) is reported iff it is not in the list of the workflow key.
+// C06: no diagnostic is emitted because a type is `any`.
+
+package actionlint
+
+//@ ghost semavisited: set<ref>
+
+//@ func (*ExprSemanticsChecker).check
+//@   props C12 C11
+//@   anchor
+//@   effect semavisited[expr] = true
+//@   ensures istype(expr, "*ObjectDerefNode") ==> semavisited[dyn(expr, "*ObjectDerefNode").Receiver]
+//@   ensures istype(expr, "*ArrayDerefNode") ==> semavisited[dyn(expr, "*ArrayDerefNode").Receiver]
+//@   ensures istype(expr, "*IndexAccessNode") ==> semavisited[dyn(expr, "*IndexAccessNode").Index] && semavisited[dyn(expr, "*IndexAccessNode").Operand]
+//@   ensures istype(expr, "*NotOpNode") ==> semavisited[dyn(expr, "*NotOpNode").Operand]
+//@   ensures istype(expr, "*CompareOpNode") ==> semavisited[dyn(expr, "*CompareOpNode").Left] && semavisited[dyn(expr, "*CompareOpNode").Right]
+//@   ensures istype(expr, "*LogicalOpNode") ==> semavisited[dyn(expr, "*LogicalOpNode").Left] && semavisited[dyn(expr, "*LogicalOpNode").Right]
+//@   ensures istype(expr, "*FuncCallNode") && sema.funcs.has(lower(dyn(expr, "*FuncCallNode").Callee)) ==> (forall j :: 0 <= j && j < len(dyn(expr, "*FuncCallNode").Args) ==> semavisited[dyn(expr, "*FuncCallNode").Args[j]])
+
+//@ func (*ExprSemanticsChecker).checkWithNarrowing
+//@   props C12 C11
+//@   anchor
+//@   effect semavisited[n] = true
+//@   ensures istype(n, "*LogicalOpNode") ==> semavisited[dyn(n, "*LogicalOpNode").Left] && semavisited[dyn(n, "*LogicalOpNode").Right]
+//@   ensures istype(n, "*NotOpNode") ==> semavisited[dyn(n, "*NotOpNode").Operand]
+
+//@ func (*ExprSemanticsChecker).checkObjectDeref
+//@   props C12 C11
+//@   ensures semavisited[n.Receiver]
+//@ func (*ExprSemanticsChecker).checkArrayDeref
+//@   props C12 C11
+//@   ensures semavisited[n.Receiver]
+//@ func (*ExprSemanticsChecker).checkIndexAccess
+//@   props C12 C11
+//@   ensures semavisited[n.Index] && semavisited[n.Operand]
+//@ func (*ExprSemanticsChecker).checkNotOp
+//@   props C12 C11
+//@   ensures semavisited[n.Operand]
+//@ func (*ExprSemanticsChecker).checkCompareOp
+//@   props C12 C11
+//@   ensures semavisited[n.Left] && semavisited[n.Right]
+//@ func (*ExprSemanticsChecker).checkLogicalOp
+//@   props C12 C11
+//@   ensures semavisited[n.Left] && semavisited[n.Right]
+//@ func (*ExprSemanticsChecker).checkFuncCall
+//@   props C12 C11
+//@   ensures sema.funcs.has(lower(n.Callee)) ==> (forall j :: 0 <= j && j < len(n.Args) ==> semavisited[n.Args[j]])
+//@   loop "range n.Args":
+//@     invariant forall jj :: 0 <= jj && jj <= range_i ==> semavisited[n.Args[jj]]
+
+// availability tests are applied to every defined variable and every built-in call
+//@ func (*ExprSemanticsChecker).checkVariable
+//@   props C12
+//@   anchor
+//@   body_calls (*ExprSemanticsChecker).checkAvailableContext iff sema.vars.has(n.Name)
+//@ func (*ExprSemanticsChecker).checkBuiltinFuncCall
+//@   props C12
+//@   anchor
+//@   body_calls (*ExprSemanticsChecker).checkSpecialFunctionAvailability iff true
+
+// a context is reported iff its lower-cased name is not in the list for the workflow key
+//@ func (*ExprSemanticsChecker).checkAvailableContext
+//@   props C12
+//@   anchor
+//@   body_calls (*ExprSemanticsChecker).errorf iff !(exists j :: 0 <= j && j < len(sema.availableContexts) && sema.availableContexts[j] == lower(n.Name))
+//@   loop "range sema.availableContexts":
+//@     invariant forall jj :: 0 <= jj && jj <= range_i ==> sema.availableContexts[jj] != lower(n.Name)
+
+// a special function is reported iff it is special and not in the list for the workflow key
+//@ func (*ExprSemanticsChecker).checkSpecialFunctionAvailability
+//@   props C12
+//@   anchor
+//@   body_calls (*ExprSemanticsChecker).errorf iff SpecialFunctionNames.has(lower(n.Callee)) && !(exists j :: 0 <= j && j < len(sema.availableSpecialFuncs) && sema.availableSpecialFuncs[j] == lower(n.Callee))
+//@   loop "range sema.availableSpecialFuncs":
+//@     invariant forall jj :: 0 <= jj && jj <= range_i ==> sema.availableSpecialFuncs[jj] != lower(n.Callee)
+
+// the availability of the workflow key is installed before the check
+//@ func (*RuleExpression).checkSemanticsOfExprNode
+//@   props C12
+//@   anchor
+//@   at_call (*ExprSemanticsChecker).SetContextAvailability: workflowKey != ""
+//@   at_call WorkflowKeyAvailability: key == workflowKey0
+//@ func (*ExprSemanticsChecker).SetContextAvailability
+//@   props C12
+//@   ensures sema.availableContexts == avail
+//@ func (*ExprSemanticsChecker).SetSpecialFunctionAvailability
+//@   props C12
+//@   ensures sema.availableSpecialFuncs == avail
+
+// ---------------------------------------------------------------------------------------------
+// C06: `any` never causes a diagnostic
+//@ func (AnyType).Assignable
+//@   props C06
+//@   ensures result
+//@ func (NullType).Assignable
+//@   props C06
+//@   ensures istype(other, "AnyType") ==> result
+//@ func (NumberType).Assignable
+//@   props C06
+//@   ensures istype(other, "AnyType") ==> result
+//@ func (BoolType).Assignable
+//@   props C06
+//@   ensures istype(other, "AnyType") ==> result
+//@ func (StringType).Assignable
+//@   props C06
+//@   ensures istype(other, "AnyType") ==> result
+//@ func (*ObjectType).Assignable
+//@   props C06
+//@   ensures istype(other, "AnyType") ==> result
+//@ func (*ArrayType).Assignable
+//@   props C06
+//@   ensures istype(other, "AnyType") ==> result
+
+//@ func (*ExprSemanticsChecker).checkObjectDeref
+//@   at_call [C06] (*ExprSemanticsChecker).errorf: !istype(ty, "AnyType")
+//@ func (*ExprSemanticsChecker).checkArrayDeref
+//@   at_call [C06] (*ExprSemanticsChecker).errorf: !istype(ty, "AnyType")
+//@ func (*ExprSemanticsChecker).checkIndexAccess
+//@   at_call [C06] (*ExprSemanticsChecker).errorf: !istype(ty, "AnyType") && ((istype(ty, "*ArrayType") || istype(ty, "*ObjectType")) ==> !istype(idx, "AnyType"))
+//@ func (*ExprSemanticsChecker).checkNotOp
+//@   at_call [C06] (*ExprSemanticsChecker).errorf: !istype(ty, "AnyType")
+//@ func (*ExprSemanticsChecker).checkCompareOp
+//@   at_call [C06] (*ExprSemanticsChecker).errorf: !(istype(l, "AnyType") && istype(r, "AnyType"))
+//@ func validateCompareOpOperands
+//@   props C06
+//@   ensures istype(l, "AnyType") && istype(r, "AnyType") ==> result
+//@   ensures istype(l, "AnyType") && (op == CompareOpNodeKindEq || op == CompareOpNodeKindNotEq) ==> result
+//@ func (*RuleExpression).checkObjectTy
+//@   at_call [C06] (*RuleBase).Errorf: !istype(ty, "AnyType")
+//@ func (*RuleExpression).checkArrayTy
+//@   at_call [C06] (*RuleBase).Errorf: !istype(ty, "AnyType")
+//@ func (*RuleExpression).checkNumberTy
+//@   at_call [C06] (*RuleBase).Errorf: !istype(ty, "AnyType")
+//@ func (*RuleExpression).checkBool
+//@   at_call [C06] (*RuleBase).Errorf: !istype(ty, "AnyType")
+//@ func (*RuleExpression).checkIfCondition
+//@   at_call [C06] (*RuleBase).Errorf: !istype(condTy, "AnyType")
